@@ -133,6 +133,42 @@ var ContentKinds = []string{"short_read", "torn_write", "lost_block", "zero_bloc
 // in front of an existing statement: the line becomes the single-statement body)
 var WrapHeaders = []string{"Wenn wahr, ", "Solange falsch, ", "Für jede Zahl zaehler von 1 bis 2, ", "Wenn falsch, dann:\n\t", "Sonst "}
 
+// TodoLines lists the lines in front of which the placeholder statement "..." can stand without changing what the
+// program means: indented lines that begin a statement of a block (the line before ends a statement or opens the
+// block) and are not part of an alias list, a field list or a continued expression.
+func TodoLines(src []byte) []int {
+	sl := bytes.Split(src, []byte("\n"))
+	var out []int
+	prev, prevInd := "", 0
+	for i, l := range sl {
+		t := strings.TrimSpace(string(l))
+		if t == "" {
+			continue
+		}
+		ind := len(l) - len(bytes.TrimLeft(l, " \t"))
+		indented := ind > 0
+		opens := false
+		for _, suf := range []string{"macht:", "dann:", "mache:", "Sonst:", "Wiederhole:", "Mache:"} {
+			if strings.HasSuffix(prev, suf) {
+				opens = true
+			}
+		}
+		ends := strings.HasSuffix(prev, ".") && !strings.HasSuffix(prev, "...")
+		starts := false
+		for _, w := range []string{"Schreibe ", "Speichere ", "Der ", "Die ", "Das ", "Wenn ", "Solange ", "Für ", "Gib ", "Erhöhe ", "Verringere ", "Wiederhole", "Mache"} {
+			if strings.HasPrefix(t, w) {
+				starts = true
+			}
+		}
+		// the same block as the statement before, or the first statement of a block that was just opened
+		if indented && starts && !strings.HasPrefix(t, "Wenn aber") && (opens && ind > prevInd || ends && ind == prevInd) {
+			out = append(out, i)
+		}
+		prev, prevInd = t, ind
+	}
+	return out
+}
+
 // Kinds that replace the file by another filesystem object.
 var ObjectKinds = []string{"enoent", "eisdir", "eloop", "dangling", "enotdir"}
 
@@ -293,6 +329,24 @@ func ApplyContent(f Fault, src []byte, alt []byte) []byte {
 			} else {
 				out = append(out, l...)
 			}
+		}
+		return out
+	case "todo":
+		// an editor puts the placeholder statement "..." (accepted with a warning) in front of line Off of a block
+		sl := bytes.SplitAfter(src, []byte("\n"))
+		cands := TodoLines(src)
+		if len(cands) == 0 {
+			return src
+		}
+		at := cands[clamp(f.Off, 0, len(cands)-1)]
+		var out []byte
+		for i, l := range sl {
+			if i == at {
+				ind := len(l) - len(bytes.TrimLeft(l, " \t"))
+				out = append(out, l[:ind]...)
+				out = append(out, "...\n"...)
+			}
+			out = append(out, l...)
 		}
 		return out
 	case "splice":
